@@ -379,7 +379,96 @@ func ruleLK1(c *Ctx) {
 
 // loaderAndCommitNames: module functions taking the log path or the store directory.
 func (c *Ctx) isLoader(fn *ssa.Function) bool {
-	return fn != nil && (fn == c.F.Anchors["loadGraph"] || fn == c.F.Anchors["readEvents"])
+	return fn != nil && (fn == c.F.Anchors["loadGraph"] || fn == c.F.Anchors["readEvents"] || c.loaderKind(fn) != "")
+}
+
+// loaderKind: fn belongs to the loader family - a module function handing back a *Graph every non-nil value of which is
+// read off replayEvents of readEvents' result (directly, or through another member): loadGraph(dir) and whatever it is
+// split into (loadGraphFrom(logPath)). "dir" when the member chooses the log file for a directory itself, "path" when it
+// is handed the log path, "" for everything else.
+func (c *Ctx) loaderKind(fn *ssa.Function) string {
+	if fn == nil || fn.Blocks == nil || !c.InModule(fn) {
+		return ""
+	}
+	if c.loaderMemo == nil {
+		c.loaderMemo = map[*ssa.Function]string{}
+	}
+	if k, ok := c.loaderMemo[fn]; ok {
+		return k
+	}
+	c.loaderMemo[fn] = ""
+	res := fn.Signature.Results()
+	if res.Len() < 1 || namedTypeName(res.At(0).Type()) != "ergo.Graph" || c.commitFuncs()[fn] {
+		return ""
+	}
+	rd, re := c.F.Anchors["readEvents"], c.F.Anchors["replayEvents"]
+	if fn == re || rd == nil || re == nil {
+		return ""
+	}
+	kind := ""
+	n := 0
+	for _, r := range returnsOf(fn) {
+		if len(r.Results) == 0 {
+			return ""
+		}
+		v := resolve(returnedValue(r, 0))
+		if isNilConst(v) {
+			continue
+		}
+		n++
+		cl, idx := callOf(v)
+		if cl == nil || idx > 0 {
+			return ""
+		}
+		cal := calleeOf(&cl.Call)
+		switch {
+		case cal == re:
+			// replayEvents(readEvents(X))
+			var src *ssa.Call
+			for _, a := range cl.Call.Args {
+				if rc, ri := callOf(resolve(a)); rc != nil && ri <= 0 && calleeOf(&rc.Call) == rd {
+					src = rc
+				}
+			}
+			if src == nil || len(src.Call.Args) == 0 {
+				return ""
+			}
+			if _, isCh := c.chooserDir(src.Call.Args[0], env{}); isCh {
+				kind = "dir"
+			} else if _, isPrm := resolve(src.Call.Args[0]).(*ssa.Parameter); isPrm {
+				kind = "path"
+			} else {
+				return ""
+			}
+		case cal != nil && cal != fn && c.loaderKind(cal) != "":
+			inner := c.loaderKind(cal)
+			if len(cl.Call.Args) == 0 {
+				return ""
+			}
+			a0 := cl.Call.Args[0]
+			if inner == "path" {
+				if _, isCh := c.chooserDir(a0, env{}); isCh {
+					kind = "dir"
+				} else if _, isPrm := resolve(a0).(*ssa.Parameter); isPrm {
+					kind = "path"
+				} else {
+					return ""
+				}
+			} else {
+				if _, isPrm := resolve(a0).(*ssa.Parameter); !isPrm {
+					return ""
+				}
+				kind = "dir"
+			}
+		default:
+			return ""
+		}
+	}
+	if n == 0 {
+		return ""
+	}
+	c.loaderMemo[fn] = kind
+	return kind
 }
 
 func ruleLK2(c *Ctx) {
@@ -446,7 +535,11 @@ func ruleLK2(c *Ctx) {
 					if cal == nil || !c.InModule(cal) {
 						continue
 					}
-					if d < 2 && commit[cal] && !c.isLoader(cal) && !c.opaqueHelper(cal) && c.inUnit(cal, ls.Callback) && !c.hasOwnCommitEffect(cal) {
+					isFwd := false
+					if tgt, _ := forwardedCall(call.Common()); tgt != nil && (c.isLoader(tgt) || commit[tgt]) {
+						isFwd = true // a forwarding method of the store object: the primitive call inside is read with the receiver bound
+					}
+					if d < 2 && (isFwd || commit[cal] && !c.isLoader(cal) && !c.opaqueHelper(cal) && c.inUnit(cal, ls.Callback) && !c.hasOwnCommitEffect(cal)) {
 						ne := env{}
 						for k, v := range ge {
 							ne[k] = v
@@ -471,8 +564,9 @@ func ruleLK2(c *Ctx) {
 				}
 				a0 := call.Common().Args[0]
 				n++
-				if cal == c.F.Anchors["loadGraph"] {
-					if got := c.canonEnv(a0, e); got != dcanon {
+				if cal == c.F.Anchors["loadGraph"] || c.loaderKind(cal) == "dir" {
+					a0v, a0e := c.throughObjectField(a0, e)
+					if got := c.canonEnv(a0v, a0e); got != dcanon {
 						bad = fmt.Sprintf("%s at %s reads directory %s, lock is on %s", c.Name(cal), c.Pos(call.Pos()), got, dcanon)
 					}
 					continue
@@ -555,7 +649,7 @@ func (c *Ctx) loadsBeforeCommits(h *ssa.Function, commit map[*ssa.Function]bool,
 		if cal == nil {
 			continue
 		}
-		if cal == c.F.Anchors["loadGraph"] || cal == c.F.Anchors["readEvents"] {
+		if c.isLoader(cal) {
 			loads = append(loads, call)
 		}
 		if commit[cal] {
@@ -613,8 +707,10 @@ func ruleLK4(c *Ctx) {
 			if cal == nil {
 				continue
 			}
-			if cal == c.F.Anchors["loadGraph"] || cal == c.F.Anchors["readEvents"] {
+			if c.isLoader(cal) {
 				loads = append(loads, call)
+			} else if tgt, _ := forwardedCall(call.Common()); tgt != nil && c.isLoader(tgt) {
+				loads = append(loads, call) // l.read(): a method of the store object forwarding to the loader
 			}
 			if commit[cal] {
 				commits = append(commits, call)
@@ -737,6 +833,33 @@ func valueDerivesFromCallTo(v ssa.Value, fn *ssa.Function) bool {
 		seen[x] = true
 		if call, ok := x.(*ssa.Call); ok && calleeOf(&call.Call) == fn {
 			return true
+		}
+		// a helper whose own result is read off a call of fn (loadGraphFrom hands back replayEvents' graph)
+		if call, idx := callOf(x); call != nil && d < 12 && curProg != nil {
+			if h := calleeOf(&call.Call); h != nil && h != fn && h.Blocks != nil && curProg.InModule(h) && !curProg.opaque[h] {
+				if idx < 0 {
+					idx = 0
+				}
+				all, any := true, false
+				for _, r := range returnsOf(h) {
+					if idx >= len(r.Results) {
+						all = false
+						break
+					}
+					rv := returnedValue(r, idx)
+					if isNilConst(rv) {
+						continue
+					}
+					any = true
+					if !walk(rv, d+6) {
+						all = false
+						break
+					}
+				}
+				if all && any {
+					return true
+				}
+			}
 		}
 		if u, ok := x.(*ssa.UnOp); ok && u.Op == token.MUL {
 			if cell := cellOf(u.X); cell != nil {
